@@ -247,7 +247,7 @@ func fixedC14(r *Rec, tier string, shard, nshards int) []*Case {
 	}
 	// ---- shorthand-token families, one per default handler: n tokens from the handler's own
 	// vocabulary followed by a non-matching tail
-	sizes := []int{8, 16, 24, 32, 48, 64}
+	sizes := []int{8, 16, 24, 32, 48, 64, 65, 72, 100, 160}
 	var props []string
 	for i, p := range cssProps {
 		if i%nshards == shard {
